@@ -58,8 +58,8 @@ theorem decode_call_order :
     ratio in place — after the comparison) -/
 theorem validate_call_order :
     C16Sites.validateProveCalls =
-      ["newBizLog", "tryZeroPadding", "calcVrfValueRatio", "common.GetRewardBlocks", "calcStakeRatio",
-       "vrfValueRatio.Cmp", "calQn", "vrfValueRatio.Float64", "stakeRatio.Float64"] ∧
+      ["tryZeroPadding", "calcVrfValueRatio", "common.GetRewardBlocks", "calcStakeRatio",
+       "vrfValueRatio.Cmp", "calQn"] ∧
     C16Sites.calQnCalls = ["stakeRatio.Cmp", "stakeRatio.Set", "SetInt64", "Quo", "Float64", "Quo", "math.Floor"] ∧
     C16Sites.calcStakeRatioCalls = ["SetInt64", "calcPotentialProposal", "SetFloat64", "Quo"] := by decide
 
